@@ -19,7 +19,10 @@ GenRoute(s, k) ==
         RandomElement(IF k > 0 THEN {FALSE} ELSE BOOLEAN),
         RandomElement(IF k > 1 THEN {FALSE} ELSE BOOLEAN),
         RandomElement(IF k > 2 THEN {-1, 100} ELSE {-1, 50, 100, 200}),
-        RandomElement(IF k > 6 THEN {Shape(1, 65001), Shape(1, 65002)}
+        (* with ignore-as-path-length the length is no criterion: paths of every length (also the empty
+           and the confederation-only one) must meet at the later steps, whatever the pin *)
+        RandomElement(IF Opt.ignlen /\ k > 3 THEN {Shape(n, 65001) : n \in {1, 5, 7, 8}} \cup {Shape(1, 65002)}
+                      ELSE IF k > 6 THEN {Shape(1, 65001), Shape(1, 65002)}
                       ELSE IF k > 5 THEN {Shape(1, 65001), Shape(4, 65001)}
                       ELSE IF k > 3 THEN {Shape(n, f) : n \in {1, 4, 6}, f \in FirstASes}
                       ELSE AllShapes),
